@@ -74,6 +74,7 @@ namespace pika::threads::detail {
             return thread_state(thread_schedule_state::unknown, thread_restart_state::unknown);
         }
 
+        PIKA_VERIF_POINT(15, get_thread_id_data(thrd));
         // set_state can't be used to force a thread into active state
         if (new_state == thread_schedule_state::active)
         {
